@@ -581,6 +581,12 @@ def ResolveBinaryExpressionType(
     assert isinstance(operation, op.Operation)
 
     if op.IsComparison(operation):
+        # Only two scalars or two vectors can be compared
+        if left.GetKind() != right.GetKind() or left.IsMatrix():
+            Errors.ERROR_INVALID_BINARY_EXPRESSION_OPERATION.Raise(
+                operation, left, right
+            )
+
         # Cast may be still necessary if we compare integers with floats
         baseType = _GetCommonPrimitiveType(left, right)
 
@@ -641,7 +647,7 @@ def ResolveBinaryExpressionType(
 
         # At this point, must be a MUL of matrix * vector or matrix * matrix
         # We must prevent vector * vector
-        if leftShape[1] != rightShape[0]:
+        if not left.IsMatrix() or leftShape[1] != rightShape[0]:
             Errors.ERROR_INVALID_BINARY_EXPRESSION_OPERATION.Raise(
                 operation, left, right
             )
